@@ -57,6 +57,7 @@ def cases(tier):
                            {"kind": "2d", "N": N, "delta": d, "path": path}, N >= 2)
                 yield Case("real2d:N=%d:d=%g:%s" % (N, d, path),
                            {"kind": "real2d", "N": N, "delta": d, "path": path}, N >= 2)
+        yield Case("storage:%s" % path, {"kind": "storage", "path": path})
         for N in ((32, 33) if tier == "quick" else (32, 33, 64, 65, 127, 128)):
             yield Case("gauss:N=%d:%s" % (N, path), {"kind": "gauss", "N": N, "path": path})
 
@@ -78,6 +79,8 @@ def evaluate(p):
     kind = p["kind"]
     if kind == "gauss":
         return _gauss(o, ns, p["N"])
+    if kind == "storage":
+        return _storage(o, ns)
     N, d = p["N"], p["delta"]
     df = 1.0 / (N * d)
     if kind == "1d":
@@ -233,3 +236,27 @@ LEVEL_TEXT = ("Every length N in the bound (1..12 quick / 1..33 thorough in 1-D,
               "Parseval and centring hold for all inputs of those lengths, not for sampled ones.")
 LEVEL_NOTE = ("Trusted: numpy matrix arithmetic and the reference centred-DFT matrix (mc/refmodels/dft.py). "
               "Not covered: lengths beyond the bound, non-square 2-D grids, spacings outside the alphabet.")
+
+
+def _storage(o, ns):
+    """the transforms are functions of the VALUES of their input: other memory layouts (Fortran order, strided
+    and transposed views, read-only) and dtypes (float32 / complex64 to single precision, integers) of the
+    same data give the same spectrum"""
+    from mc import variants
+    i, j = numpy.indices((6, 6))
+    re2 = ((3 * i * i + 5 * j + 2 * i * j) % 13 - 4).astype(float)
+    x1 = re2[1].copy()
+    st = numpy.array([re2, re2.T + 1.0])
+    for name, f, data in (("ft:1d", lambda a: ns.ft(a, 0.5), x1), ("ift:1d", lambda a: ns.ift(a, 0.5), x1),
+                          ("ft:rows", lambda a: ns.ft(a, 0.5), re2), ("ft2", lambda a: ns.ft2(a, 0.5), re2),
+                          ("ift2", lambda a: ns.ift2(a, 0.5), re2), ("ft2:stack", lambda a: ns.ft2(a, 0.5), st),
+                          ("rft", lambda a: ns.rft(a, 0.5), x1), ("rft2", lambda a: ns.rft2(a, 0.5), re2),
+                          ("rft2:stack", lambda a: ns.rft2(a, 0.5), st)):
+        n = variants.check_storage(o, "transform_independent_of_storage", f, data, 1e-12, sub=name,
+                                   kinds=("float32", "int64", "int32"))
+        o.stat("lib_calls", n)
+    cx = re2 + 1j * re2.T
+    for name, f in (("ft2:complex", lambda a: ns.ft2(a, 0.5)), ("ift2:complex", lambda a: ns.ift2(a, 0.5))):
+        n = variants.check_storage(o, "transform_independent_of_storage", f, cx, 1e-12, sub=name, kinds=("float32",))
+        o.stat("lib_calls", n)
+    return o
